@@ -18,7 +18,10 @@ META = {
     "text": "Constant-only expressions (literals, arithmetic, ~, comparisons, and/or/not, conditional expressions, filters and "
     "tests on constants, safe-marked constants, attribute/item/slice access on literal containers) are enumerated exhaustively "
     "at depth 0/1 over the atom menu and as all operator shapes of depth 2 (thorough: + depth 3 on a sub-menu) filled from "
-    "fixed leaf vectors; each is placed as output, filter argument, set value and if test, inside no autoescape block / "
+    "fixed leaf vectors; a menu of constant expressions whose results are container subclasses or rich objects (groupby "
+    "groups, items/dictsort pairs, range, cycler, joiner, namespace, batch/slice/map/select generators, Markup-returning "
+    "filters) is combined with one and two consumers (.grouper .list [0] .0 |first |list |length tests ~ + ...) and a "
+    "for-loop placement; each is placed as output, filter argument, set value and if test, inside no autoescape block / "
     "autoescape true / false / a runtime flag with both values, under Environment(autoescape=False/True). Every base "
     "template is rendered together with its variants: optimized=False, each single literal (and each safe-marked literal, as "
     "Markup) lifted to a context variable holding the same value, all of them lifted, and the static autoescape argument "
@@ -100,6 +103,9 @@ def place(placement, src):
         return "{% set v = " + src + " %}[{{ v }}]"
     if placement == "iftest":
         return "{% if " + src + " %}T{% else %}F{% endif %}"
+    if placement == "forloop":
+        return ("{% for g in " + src + " %}[{{ g }}|{{ g.grouper }}|{{ g.list|length }}|{{ g.0 }}|{{ g is mapping }}]"
+                "{% else %}none{% endfor %}")
     raise AssertionError(placement)
 
 
@@ -165,10 +171,10 @@ def render(auto, env_kw, tsrc, data):
     try:
         try:
             with core.alarm(15):
-                return ("ok", once())
+                return ("ok", G.norm_text(once()))
         except core.CaseTimeout:  # a stalled machine is not a finding: one retry with a long limit
             with core.alarm(180):
-                return ("ok", once())
+                return ("ok", G.norm_text(once()))
     except core.CaseTimeout:
         return ("exc", "CaseTimeout")
     except Exception as e:  # noqa: BLE001
@@ -249,6 +255,89 @@ def check(p, ast, ctx):
                f"  (differing variants: {'+'.join(kinds)}; found in {G.to_src(ast)!r} as {placement})",
         "autoescape": auto, "base": btsrc, "variant": vtsrc, "variant_kinds": kinds,
         "script": script_for(auto, btsrc, base_data, vtsrc, vdata, {"optimized": False} if kind == "noopt" else {})})
+
+
+# ---- results that are container subclasses / rich objects on constant input, used through their own API
+
+def _rich():
+    I, S, L, D, F, C, N = G.Int, G.Str, G.List, G.Dict, G.Filter, G.Call, G.Name
+    rows = L(D((S("k"), I(1)), (S("v"), I(2))), D((S("k"), I(1)), (S("v"), I(3))), D((S("k"), I(2)), (S("v"), S("<v>"))))
+    gb = F(rows, "groupby", (S("k"),))
+    nums = L(I(3), I(1), I(2), I(1))
+    dct = D((S("b"), I(1)), (S("a"), S("<a>")))
+    prods = [
+        gb, F(gb, "first"), F(gb, "last"), F(gb, "list"), F(rows, "groupby", (), (("attribute", S("k")), ("default", I(0)))),
+        F(dct, "items"), F(C(N("dict"), (), (("a", I(1)),)), "items"), F(dct, "dictsort"), F(dct, "list"),
+        C(N("range"), (I(3),)), C(N("range"), (I(1), I(7), I(2))),
+        C(G.Attr(C(N("cycler"), (S("a"), S("<b>"))), "next")), G.Attr(C(N("cycler"), (S("a"), S("<b>"))), "current"),
+        C(N("joiner")), C(C(N("joiner"), (S("<j>"),))),
+        G.Attr(C(N("namespace"), (), (("a", I(1)),)), "a"), C(N("namespace"), (), (("grouper", S("<g>")),)),
+        F(nums, "batch", (I(2),)), F(nums, "batch", (I(3), S("<f>"))), F(nums, "slice", (I(2),)), F(nums, "sort"),
+        F(nums, "unique"), F(nums, "reverse"), F(nums, "select", (S("odd"),)), F(rows, "map", (), (("attribute", S("v")),)),
+        F(rows, "selectattr", (S("k"), S("eq"), I(1))), F(nums, "max"), F(nums, "sum"),
+        F(S("a <b>"), "list"), F(S("a <b>"), "wordcount"), F(S("a <b>"), "title"), F(S("a <b>"), "center", (I(9),)),
+        F(S("a <b>"), "urlize"), F(S("a <b>"), "striptags"), F(dct, "tojson"), F(dct, "xmlattr"), F(dct, "pprint"),
+        F(S("%s-%s"), "format", (S("<x>"), I(1))), F(S("a <b>"), "truncate", (I(4),)), F(S("a <b>"), "indent"),
+        F(S("a <b>"), "forceescape"), F(S("a,<b>"), "replace", (S(","), SAFE("<s>"))),
+    ]
+    cons = [
+        ("id", lambda e: e), (".grouper", lambda e: G.Attr(e, "grouper")), (".list", lambda e: G.Attr(e, "list")),
+        ("[0]", lambda e: G.Item(e, I(0))), ("[1]", lambda e: G.Item(e, I(1))), (".0", lambda e: G.IItem(e, 0)),
+        ("[k]", lambda e: G.Item(e, S("k"))), ("|first", lambda e: F(e, "first")), ("|last", lambda e: F(e, "last")),
+        ("|list", lambda e: F(e, "list")), ("|length", lambda e: F(e, "length")), ("|string", lambda e: F(e, "string")),
+        ("|join", lambda e: F(e, "join", (S("<,>"),))), ("is mapping", lambda e: G.Test(e, "mapping")),
+        ("is string", lambda e: G.Test(e, "string")), ("is iterable", lambda e: G.Test(e, "iterable")),
+        ("[:1]", lambda e: G.Slice(e, None, I(1), None)), ("|safe", lambda e: F(e, "safe")),
+        ("~", lambda e: G.Bin("~", e, S("<t>"))), ("+", lambda e: G.Bin("+", e, e)),
+    ]
+    return prods, cons
+
+
+RICH_PRODUCERS, RICH_CONSUMERS = _rich()
+RICH_CONTEXTS = CONTEXTS + [("forloop", a, w) for a in (False, True) for w in WRAPPERS]
+
+
+def _opaque(ast):
+    """value prints with its memory address (plain objects, generators, iterators): never stringify it inside the template."""
+    if ast[0] == "call" and ast[1] == G.Name("joiner"):
+        return True
+    return ast[0] == "filter" and ast[2] in ("items", "batch", "slice", "unique", "reverse", "select", "map", "selectattr")
+
+
+STRINGIFYING = ("|string", "~", "|safe")
+
+
+def rich_shard(arg):
+    """producer and consumer(producer) in every context (quick: 5 contexts in rotation, stride 11 so that placement and
+    wrapper both vary); consumer(consumer(producer)) in 5 rotating contexts (quick: every 4th pair, 1 context)."""
+    quick, pi = arg
+    warnings.filterwarnings("ignore", category=SyntaxWarning)
+    p = core.Part()
+    prod = RICH_PRODUCERS[pi]
+    nctx = len(RICH_CONTEXTS)
+    n = 0
+    for ci, (cname, c1) in enumerate(RICH_CONSUMERS):
+        if _opaque(prod) and cname in STRINGIFYING:
+            continue
+        ast = c1(prod)
+        ctxs = RICH_CONTEXTS if not quick else [RICH_CONTEXTS[(pi * 3 + ci * 7 + j * 11) % nctx] for j in range(5)]
+        for ctx in ctxs:
+            check(p, ast, ctx)
+        p.count("rich_expressions")
+        p.sample({"expr": G.to_src(ast), "contexts": len(ctxs)}, cap=1)
+        if cname == "id":
+            continue
+        for cj, (c2name, c2) in enumerate(RICH_CONSUMERS[1:]):
+            n += 1
+            if quick and (n + pi) % 4:
+                continue
+            if c2name in STRINGIFYING and (_opaque(prod) or _opaque(ast)):
+                continue
+            ast2 = c2(ast)
+            for j in range(1 if quick else 5):
+                check(p, ast2, RICH_CONTEXTS[(pi * 3 + n * 7 + j * 11) % nctx])
+            p.count("rich_expressions")
+    return p
 
 
 def prep(ast):
@@ -332,11 +421,15 @@ def run(ctx: core.Ctx):
                 "non-trivial = every base template; distinct = distinct (placement, wrapper, autoescape, base outcome)")
     ctx.assumptions += ["lifting replaces a literal by a context variable holding the equal Python value (Markup for "
                         "`\"..\"|safe`); containers are lifted leaf-wise", "exceptions compared by class name",
-                        "`sameas` not generated"]
+                        "`sameas` not generated", "object addresses in rendered text are normalised"]
     d1 = [(quick, i) for i in range(-1, len(FORMS))]
     if os.environ.get("VERIF_SMOKE"):
         d1 = d1[::int(os.environ["VERIF_SMOKE"])]
     ctx.pmap(depth01_shard, d1)
+    rich = [(quick, i) for i in range(len(RICH_PRODUCERS))]
+    if os.environ.get("VERIF_SMOKE"):
+        rich = rich[::max(1, int(os.environ["VERIF_SMOKE"]) // 10)]
+    ctx.pmap(rich_shard, rich)
     plan = [("d2-sub", space("d2-sub").count(), 3, 1, 200)] if quick else [
         ("d2", space("d2").count(), 2, 2, 300), ("d3", space("d3").count(), 1, 1, 2000)]
     shards = []
@@ -347,6 +440,7 @@ def run(ctx: core.Ctx):
         ctx.cap_hit("VERIF_SMOKE: only every n-th shape shard was run")
     ctx.pmap(shape_shard, shards)
     ctx.cov["bounds"] = {"forms": len(FORMS), "atoms_arity1": len(ATOMS_QUICK if quick else ATOMS_FULL),
-                         "atoms_arity2": len(ATOMS_QUICK2 if quick else ATOMS_FULL), "atoms_arity3": 3 if quick else len(ATOMS_3), "contexts": len(CONTEXTS),
+                         "atoms_arity2": len(ATOMS_QUICK2 if quick else ATOMS_FULL), "atoms_arity3": 3 if quick else len(ATOMS_3), "contexts": len(CONTEXTS), "rich_producers": len(RICH_PRODUCERS), "rich_consumers": len(RICH_CONSUMERS),
+                         "rich_contexts": len(RICH_CONTEXTS),
                          "shape_spaces": {s: {"shapes": c, "leaf_vectors_per_shape": v, "contexts_per_shape": x}
                                           for s, c, v, x, _ in plan}}
